@@ -16,9 +16,12 @@ import (
 	"go/token"
 	"go/types"
 	"math/bits"
+	"sort"
+	"strings"
 
 	"fpcheck/core"
 
+	"golang.org/x/tools/go/cfg"
 	"golang.org/x/tools/go/packages"
 )
 
@@ -152,33 +155,51 @@ func (m *trieModel) calleeShift(info *types.Info, call *ast.CallExpr) int {
 	return -1
 }
 
-// shiftPlus matches `s + K` / `K + s` with K a positive integer constant and returns K (0 for bare s, -1 otherwise).
+// shiftPlus matches `s + K` (also K + s, s + K1 - K2, parenthesised) with K a positive integer constant and returns K
+// (0 for bare s, -1 otherwise).
 func shiftPlus(info *types.Info, e ast.Expr, s types.Object) int64 {
-	e = ast.Unparen(e)
-	if id, ok := e.(*ast.Ident); ok && info.Uses[id] == s {
-		return 0
-	}
-	be, ok := e.(*ast.BinaryExpr)
-	if !ok || be.Op != token.ADD {
-		return -1
-	}
-	x, y := ast.Unparen(be.X), ast.Unparen(be.Y)
-	if id, ok := y.(*ast.Ident); ok && info.Uses[id] == s {
-		x, y = y, x
-	}
-	id, ok := x.(*ast.Ident)
-	if !ok || info.Uses[id] != s {
-		return -1
-	}
-	tv, ok := info.Types[y]
-	if !ok || tv.Value == nil || tv.Value.Kind() != constant.Int {
-		return -1
-	}
-	k, _ := constant.Int64Val(tv.Value)
-	if k <= 0 {
+	k, ok := shiftOffset(info, e, s)
+	if !ok || k < 0 {
 		return -1
 	}
 	return k
+}
+
+// shiftOffset evaluates e as s + k for a constant k.
+func shiftOffset(info *types.Info, e ast.Expr, s types.Object) (int64, bool) {
+	e = ast.Unparen(e)
+	if id, ok := e.(*ast.Ident); ok && info.Uses[id] == s {
+		return 0, true
+	}
+	be, ok := e.(*ast.BinaryExpr)
+	if !ok || (be.Op != token.ADD && be.Op != token.SUB) {
+		return 0, false
+	}
+	constOf := func(x ast.Expr) (int64, bool) {
+		tv, ok := info.Types[x]
+		if !ok || tv.Value == nil || tv.Value.Kind() != constant.Int {
+			return 0, false
+		}
+		v, exact := constant.Int64Val(tv.Value)
+		return v, exact
+	}
+	if k, ok := shiftOffset(info, be.X, s); ok {
+		if c, ok := constOf(be.Y); ok {
+			if be.Op == token.ADD {
+				return k + c, true
+			}
+			return k - c, true
+		}
+		return 0, false
+	}
+	if be.Op == token.ADD {
+		if k, ok := shiftOffset(info, be.Y, s); ok {
+			if c, ok := constOf(be.X); ok {
+				return k + c, true
+			}
+		}
+	}
+	return 0, false
 }
 
 // propagateShift extends shiftPos to plain functions whose uint parameter is forwarded (bare or +K) into a known level position.
@@ -434,7 +455,7 @@ func TrieFrag(c *core.Ctx, rule string, p *packages.Package) {
 		}
 	}
 	K := majority(descents)
-	maxK := int64(bits.Len64(uint64(M + 1)) - 1)
+	maxK := int64(bits.Len64(uint64(M+1)) - 1)
 	for _, s := range descents {
 		switch {
 		case s.val != K:
@@ -445,7 +466,7 @@ func TrieFrag(c *core.Ctx, rule string, p *packages.Package) {
 			c.Add(rule, s.key, s.pos, core.Discharged, "level+"+itoa(int(K)))
 		}
 	}
-	c.Table(rule+" slots", "level-dependent functions: " + itoa(nFn), "M=" + itoa(int(M)), "K=" + itoa(int(K)), "array slots=" + itoa(arrayLen))
+	c.Table(rule+" slots", "level-dependent functions: "+itoa(nFn), "M="+itoa(int(M)), "K="+itoa(int(K)), "array slots="+itoa(arrayLen))
 	c.Floor(rule, "level-dependent functions", nFn, 8)
 	c.Floor(rule, "fragment sites", len(frags), 6)
 	c.Floor(rule, "descent sites", len(descents), 5)
@@ -549,4 +570,227 @@ func TrieLevel(c *core.Ctx, rule string, p *packages.Package) {
 		})
 	}
 	c.Floor(rule, "returns of level-dependent node functions", n, 25)
+}
+
+// TrieResized implements R-RESIZED: the growth of the map is reported through the *bool out-parameter.
+//
+// hamt.Set adds one to the size exactly when the node layer sets *resized. The entry-adding events of the node layer
+// are (a) a call of the merge function (a leaf and a new key/value become a branch) and (b), in a branch node, the
+// creation of a fresh value leaf for an empty slot. Each must be preceded, on every path from the entry of the
+// enclosing set method, by the store *resized = true; otherwise Size() under-counts and IsEmpty can hold for a
+// non-empty map.
+func TrieResized(c *core.Ctx, rule string, p *packages.Package) {
+	c.Rule(rule, "in every function of package immutable that has the *bool growth out-parameter, each entry-adding event (a call of the leaf-merging function; in a branch node, the construction of a new value leaf) is preceded on every path from the function entry by the store `*resized = true`")
+	m := buildTrieModel(c, p)
+	m.propagateShift(c)
+	info := p.TypesInfo
+	// (a) merge functions: package-level, level-dependent, returning a node, not a method
+	isMerge := func(fn *types.Func) bool {
+		if fn == nil || fn.Pkg() != p.Types {
+			return false
+		}
+		sig := fn.Type().(*types.Signature)
+		if sig.Recv() != nil || sig.Results().Len() != 1 {
+			return false
+		}
+		if _, ok := m.shiftPos[fn.Origin()]; !ok {
+			return false
+		}
+		rn := namedOf(sig.Results().At(0).Type())
+		return rn != nil && m.ifaces[rn.Obj()]
+	}
+	// (b) leaf constructors: package-level functions returning *leaf
+	isLeafCtor := func(fn *types.Func) bool {
+		if fn == nil || fn.Pkg() != p.Types {
+			return false
+		}
+		sig := fn.Type().(*types.Signature)
+		if sig.Recv() != nil || sig.Results().Len() != 1 {
+			return false
+		}
+		pt, ok := sig.Results().At(0).Type().(*types.Pointer)
+		if !ok {
+			return false
+		}
+		rn := namedOf(pt.Elem())
+		return rn != nil && m.leaf[rn.Obj()]
+	}
+	n := 0
+	for _, fb := range funcBodies(c, []*packages.Package{p}) {
+		if fb.Lit != nil || fb.Decl == nil {
+			continue
+		}
+		var flag types.Object
+		for _, f := range fb.Type.Params.List {
+			for _, nm := range f.Names {
+				if o := info.Defs[nm]; o != nil {
+					if pt, ok := o.Type().(*types.Pointer); ok {
+						if b, ok := pt.Elem().(*types.Basic); ok && b.Kind() == types.Bool {
+							flag = o
+						}
+					}
+				}
+			}
+		}
+		if flag == nil {
+			continue
+		}
+		inBranch := false
+		if fb.Decl.Recv != nil && len(fb.Decl.Recv.List) == 1 {
+			if tv, ok := info.Types[fb.Decl.Recv.List[0].Type]; ok {
+				t := tv.Type
+				if pt, ok := t.(*types.Pointer); ok {
+					t = pt.Elem()
+				}
+				if rn := namedOf(t); rn != nil {
+					_, inBranch = m.branch[rn.Obj()]
+				}
+			}
+		}
+		g := newCFG(c, fb)
+		// boolean locals with exactly one assignment (their definition)
+		assignCount := map[types.Object]int{}
+		ast.Inspect(fb.Body, func(x ast.Node) bool {
+			switch as := x.(type) {
+			case *ast.AssignStmt:
+				for _, l := range as.Lhs {
+					if id, ok := l.(*ast.Ident); ok {
+						if o := info.ObjectOf(id); o != nil {
+							assignCount[o]++
+						}
+					}
+				}
+			case *ast.UnaryExpr:
+				if as.Op == token.AND {
+					if id, ok := ast.Unparen(as.X).(*ast.Ident); ok {
+						if o := info.ObjectOf(id); o != nil {
+							assignCount[o] += 2 // address taken: may change behind our back
+						}
+					}
+				}
+			}
+			return true
+		})
+		onceAssigned := map[types.Object]bool{}
+		for o, k := range assignCount {
+			if b, ok := o.Type().Underlying().(*types.Basic); ok && b.Kind() == types.Bool && k == 1 {
+				onceAssigned[o] = true
+			}
+		}
+		isFlagStore := func(nd ast.Node) bool {
+			as, ok := nd.(*ast.AssignStmt)
+			if !ok || len(as.Lhs) != 1 || len(as.Rhs) != 1 {
+				return false
+			}
+			st, ok := ast.Unparen(as.Lhs[0]).(*ast.StarExpr)
+			if !ok || objOf(info, st.X) != flag {
+				return false
+			}
+			tv, ok := info.Types[as.Rhs[0]]
+			return ok && tv.Value != nil && tv.Value.String() == "true"
+		}
+		k := 0
+		for _, b := range g.Blocks {
+			for i, nd := range b.Nodes {
+				var events []*ast.CallExpr
+				inspectShallow(nd, func(x ast.Node) bool {
+					if call, ok := x.(*ast.CallExpr); ok {
+						fn := calleeOf(info, call)
+						if isMerge(fn) || (inBranch && isLeafCtor(fn)) {
+							events = append(events, call)
+						}
+					}
+					return true
+				})
+				for _, ev := range events {
+					k++
+					n++
+					key := fb.Name + "/add#" + itoa(k) + ":" + exprString(ev.Fun)
+					// reachable from entry without a flag store? Path-sensitive in the boolean locals that are assigned once
+					// (`exists := …; if !exists { *resized = true } … if exists { … } else { event }` is not a path).
+					type state struct {
+						b     *cfg.Block
+						facts string
+					}
+					seen := map[state]bool{}
+					found := false
+					var dfs func(bb *cfg.Block, facts map[types.Object]bool)
+					dfs = func(bb *cfg.Block, facts map[types.Object]bool) {
+						if found {
+							return
+						}
+						st := state{bb, factString(facts)}
+						if seen[st] {
+							return
+						}
+						seen[st] = true
+						for j, x := range bb.Nodes {
+							if bb == b && j == i {
+								found = true
+								return
+							}
+							if isFlagStore(x) {
+								return
+							}
+						}
+						var condVar types.Object
+						condVal := true
+						if len(bb.Succs) == 2 && len(bb.Nodes) > 0 {
+							if e, ok := bb.Nodes[len(bb.Nodes)-1].(ast.Expr); ok {
+								e = ast.Unparen(e)
+								if u, ok := e.(*ast.UnaryExpr); ok && u.Op == token.NOT {
+									e, condVal = ast.Unparen(u.X), false
+								}
+								if id, ok := e.(*ast.Ident); ok {
+									if o := info.Uses[id]; o != nil && onceAssigned[o] {
+										condVar = o
+									}
+								}
+							}
+						}
+						for si, s := range bb.Succs {
+							nf := facts
+							if condVar != nil {
+								want := condVal
+								if si == 1 {
+									want = !condVal
+								}
+								if v, has := facts[condVar]; has && v != want {
+									continue // infeasible: contradicts an earlier branch on the same variable
+								}
+								nf = map[types.Object]bool{}
+								for k2, v2 := range facts {
+									nf[k2] = v2
+								}
+								nf[condVar] = want
+							}
+							dfs(s, nf)
+						}
+					}
+					if len(g.Blocks) > 0 {
+						dfs(g.Blocks[0], map[types.Object]bool{})
+					}
+					if found {
+						c.Add(rule, key, ev.Pos(), core.Violated, "`"+exprString(ev)+"` adds an entry but can be reached without `*"+flag.Name()+" = true`: the map's size is not incremented for this insertion (Size under-counts; after removals IsEmpty holds for a non-empty map)")
+					} else {
+						c.Add(rule, key, ev.Pos(), core.Discharged, "preceded by *"+flag.Name()+" = true on every path")
+					}
+				}
+			}
+		}
+	}
+	c.Floor(rule, "entry-adding events in functions with the growth flag", n, 4)
+}
+
+func factString(f map[types.Object]bool) string {
+	var ks []string
+	for o, v := range f {
+		if v {
+			ks = append(ks, o.Name()+"=T")
+		} else {
+			ks = append(ks, o.Name()+"=F")
+		}
+	}
+	sort.Strings(ks)
+	return strings.Join(ks, ",")
 }
